@@ -448,7 +448,11 @@ func refreshAgreementRule(P *Program, R *Report) {
 		R.decide(rule, kUpdCommit+":args", "the builder's own commit and commitment list are refreshed from the given witness", desc(ar[0]) == nb+".commit" && desc(ar[1]) == nb+".commitments" && desc(ar[2]) == "<revocation.Witness>", "", P.Pos(upd.Pos()))
 		q := &MustPass{P: P, Match: func(a Atom) bool {
 			g, ok := parseGuard(a, nil)
-			return ok && g.Kind == "int" && g.Subject == nb+".index" && g.Rel == "<" && g.BoundA.String() == "<revocation.Witness>.SignedAccumulator.Accumulator.Index"
+			if !ok {
+				return false
+			}
+			rel, ok := g.intRel(nb+".index", "<revocation.Witness>.SignedAccumulator.Accumulator.Index")
+			return ok && rel == "<"
 		}}
 		r := q.MustReach(uc, upd)
 		R.decide(rule, kUpdCommit+":forward-only", "the commit is refreshed only when the witness' accumulator index is greater than the recorded one", r.Holds, r.Path, P.Pos(upd.Pos()))
